@@ -2444,7 +2444,11 @@ class HTTPChannel(basic.LineReceiver, policies.TimeoutMixin):
         if header == b"Content-Length":
             if not data.isdigit():
                 return self._failChooseTransferDecoder()
-            length = int(data)
+            try:
+                length = int(data)
+            except ValueError:
+                # More digits than int() is willing to convert.
+                return self._failChooseTransferDecoder()
             newTransferDecoder = _IdentityTransferDecoder(
                 length, self.requests[-1].handleContentChunk, self._finishRequestBody
             )
